@@ -4,9 +4,13 @@
   Model: IQE.Engine.PlanWf (exported-plan AST, run-time column resolution `resolve`, reported schema `schemaOf`,
   emitted schema `outSchema`, the checkers `wf` and `preserved`).  The tie is per program (translation validation):
   for every generated bound plan, every rule alone and every step of the production fixpoint, the driver evaluates
-  `wf after && preserved before after` on the plans exported from the real optimizer (Driver/C31.lean).
+  `wf after && preserved before after && noNewBad before after` on the plans exported from the real optimizer
+  (Driver/C31.lean).  `noNewBad` (IQE.Engine.PlanQual) is the qualifier part of well-formedness: the engine's
+  resolution never fails while some field ends in `.name`, so `wf` alone accepts a join key `b.k` evaluated against
+  the input `[a.id, a.k]`; `qualP` demands that the column a qualified reference reads IS the column of that name.
 -/
 import IQE.Engine.PlanWf
+import IQE.Engine.PlanQual
 import IQE.Lemmas.PlanRun
 namespace IQE.Props.C31
 open IQE.Engine.PlanWf
@@ -42,6 +46,42 @@ theorem C31_wf_runs_scoped (o : Ops) (sane : o.Sane) (cat : String → Option (L
   have hg := exec_good o sane cat outer hs p h
   intro he; rw [he] at hg; exact hg rfl
 
+/-- Soundness of the qualifier check for one reference: when `qualRef` accepts `r.n` in a list of scopes, the scope
+    the executor reads from (the first in which the engine's resolution succeeds) resolves the reference to a
+    position whose column is named exactly `r.n` — physically, or logically through the enclosing SubqueryAlias. -/
+theorem C31_qual_sound (scopes : List QScope) (r n : String) (h : qualRef scopes r n = true) :
+    ∃ sc i, firstScope scopes r n = some sc ∧ resolve sc.1 (some r) n = some i ∧
+      (nameAt sc.1 i (r ++ "." ++ n) = true ∨ nameAt sc.2 i (r ++ "." ++ n) = true) := by
+  unfold qualRef at h
+  cases hf : firstScope scopes r n with
+  | none => simp [hf] at h
+  | some sc =>
+    simp only [hf] at h
+    unfold exactAt at h
+    cases hr : resolve sc.1 (some r) n with
+    | none => simp [hr] at h
+    | some i =>
+      simp only [hr, Bool.or_eq_true] at h
+      exact ⟨sc, i, rfl, hr, h⟩
+
+/-- The full checker is at least `wf`: everything `C31_wf_runs` says holds of a plan accepted by `wfq`, and such a plan has
+    no offending qualified reference at all. -/
+theorem C31_wfq_wf (p : Plan) (h : wfq p = true) : wf p = true ∧ badP [] p = [] := by
+  unfold wfq qualP at h
+  simp only [Bool.and_eq_true, List.isEmpty_iff] at h
+  exact h
+
+/-- A rule whose input has no offending reference and which introduces none returns a plan without any. -/
+theorem C31_no_new_bad (before after : Plan) (hb : qualP before = true) (h : noNewBad before after = true) :
+    qualP after = true := by
+  unfold qualP at hb ⊢
+  unfold noNewBad at h
+  have hb' : badP [] before = [] := by simpa [List.isEmpty_iff] using hb
+  rw [hb'] at h
+  cases ha : badP [] after with
+  | nil => rfl
+  | cons x xs => rw [ha] at h; simp at h
+
 /-! ### non-vacuity -/
 
 def f (n r t : List Char) : Field := { name := String.ofList n, rel := some (String.ofList r), ty := String.ofList t }
@@ -55,6 +95,26 @@ example : wf (.project [.col none "a"] [f ['a'] ['t'] ['i'], f ['b'] ['t'] ['i']
 -- a rule that renames an output column does not preserve the schema
 example : preserved scanT (.project [.col none "a", .col none "b"] [f ['a'] ['t'] ['i'], f ['c'] ['t'] ['i']] scanT) = false := by decide
 example : preserved scanT (.filter (.col none "a") scanT) = true := by decide
+
+-- SemiJoinPushdown onto the wrong input: Semi(ta a, tc) ON b.k = tc.k2 under Inner(·, tb b).  The engine resolves `b.k` in the batch
+-- [a.id, a.k] through the `.k` suffix, so `wf` accepts the plan; the qualifier check rejects it, and accepts the push onto `tb b`
+def fa (n : List Char) := f n ['a'] ['i']
+def fb (n : List Char) := f n ['b'] ['i']
+def scanA : Plan := .scan "ta" [fa ['i','d'], fa ['k']] none []
+def scanB : Plan := .scan "tb" [fb ['i','d'], fb ['k'], fb ['f','k']] none []
+def scanC : Plan := .scan "tc" [f ['k','2'] ['t','c'] ['i']] none []
+def joinAB (l r : Plan) : Plan := .join .inner [.col (some "a") "id"] [.col (some "b") "fk"] [] (outSchema l ++ outSchema r) l r
+def semiOn (i : Plan) : Plan := .join .semi [.col (some "b") "k"] [.col (some "tc") "k2"] [] (outSchema i) i scanC
+example : wf (joinAB (semiOn scanA) scanB) = true := by decide
+example : qualP (joinAB (semiOn scanA) scanB) = false := by decide
+example : badP [] (joinAB (semiOn scanA) scanB) = ["b.k"] := by decide
+example : wfq (joinAB scanA (semiOn scanB)) = true := by decide
+example : wfq (semiOn (joinAB scanA scanB)) = true := by decide
+example : noNewBad (semiOn (joinAB scanA scanB)) (joinAB (semiOn scanA) scanB) = false := by decide
+example : noNewBad (semiOn (joinAB scanA scanB)) (joinAB scanA (semiOn scanB)) = true := by decide
+-- a derived table: `x.q` over `(SELECT a.k AS q …) AS x` reads the physical field `q`, whose logical name is `x.q`
+example : wfq (.filter (.col (some "x") "q") (.alias "x" none [f ['q'] ['x'] ['i']]
+    (.project [.col (some "a") "k"] [{ name := "q", rel := none, ty := "i" }] scanA))) = true := by decide
 
 -- the model does raise column-not-found on the ill-formed plan above (trivial operators, one row [1, 2] in table t)
 def ops0 : Ops := { lit := fun _ _ => none, scalar := fun _ _ _ => .ok none, agg := fun _ _ => .ok none, win := fun _ _ _ => .ok none, subq := fun _ _ _ _ => .ok none }
